@@ -21,3 +21,8 @@ type item struct {
 type ITEM struct {
 	S string
 }
+
+// two declarations on one line
+type P1 struct{ X int }; type P2 struct{ Y string }
+
+type ( Q1 int; Q2 string )
